@@ -213,6 +213,7 @@ method("_handle_fetch_response", "(%s, responses: List[FetchResponse]) -> None" 
 # re-entrancy guard is what the rely clause "stopping-is-exclusive" records, and every other entry point proves the
 # matching guarantee.
 method("start", "(%s, start_offset: int) -> Ref_Deferred" % SELF, props=["C13"],
+       requires=["start_offset != -101 or self.consumer_group"],     # documented: OFFSET_COMMITTED needs a consumer group
        raises={"RestartError[C13]": "iff:self._start_d is not None"},
        checkpoints={"call:_do_fetch#1": {"fresh-run[C13]": "self._start_d is not None and not called(self._start_d) "
                                                            "and self._fetch_offset == start_offset"}})
